@@ -223,6 +223,9 @@ SNIPPETS = [
     ("def", "[ref]: http://example.com/x \"T\""), ("footnote", "[^n]: Note text."), ("html", "<div>inline html</div> text"),
     ("hardbreak", "line one\\\nline two"), ("task", "- [ ] todo\n- [x] done"), ("otask", "1. [x] done\n2. [ ] open\n\n   second paragraph"), ("startask", "* [ ] star\n+ [x] plus"), ("alert", "> [!NOTE]\n> Body."), ("link", "See [ref] and [t](http://u.v \"ti\")."),
     ("emph", "*em* **strong** `code` ~~del~~"), ("nested", "- a\n  - b\n\n    para in b"), ("digits", "1986\\. A year"),
+    ("fn_first_in_item", "- [^m]: note in item\n\n  second para of the item\n- next[^m]"), ("fn_first_in_oitem", "1. [^k]: note\n\n   ```\n   code\n   ```\n2. two[^k]"),
+    ("tilde_sym", "about ~100 (+~200 extra) and cost~$5~ each, ~100 and <~200 items, approx~=5~ish"), ("tilde_del", "~~two~~ and a ~~b c~~ d"),       # single-tilde strikethrough is GFM only: the CommonMark reference parser reads it as text
+    ("esc_entity", r"""AT&amp\;T and &#35\; and <\/b> and <br\/> and <a href=\"x\"> stay text, as do \&amp; and \<b> and 1986\, x\' y"""),
     ("listfirst", "- - a\n\n  - b\n\n  para after inner"), ("olistfirst", "1. - x\n\n   - y\n2. z"),
 ]
 
